@@ -119,7 +119,7 @@ def group_iteration(ctx, fi, ip, gev):
     B = plen(G) * sp.Symbol('param:sketchy_rank', integer=True, positive=True)
     wfacts = W[4]
     # which loops store into RANKS, and where is the budget assertion?
-    stores_loops = [e for e in evs if e[0] == 'loop' and any(x[0] == 'dict-store' and x[1] == oid for qq, _ in e[3] for x in qq.events[e[5]:])]
+    stores_loops = [e for e in evs if e[0] == 'loop' and _stores_into(e, oid)]
     direct = [e for e in evs if e[0] == 'dict-store' and e[1] == oid]
     S_syms = [a for a in wfacts_atoms(wfacts) if isinstance(a, dsum)]
     tag = 'top-up taken' if len(stores_loops) > 1 else 'no top-up'
@@ -216,6 +216,54 @@ def _dict_of(st, oid):
   raise AnalysisError('ranks dict not reachable in loop head state')
 
 
+def _stores_into(e, oid):
+  """does loop event e store into dict oid - directly or inside a nested loop?"""
+  for q, _ in e[3]:
+    for x in q.events[e[5]:]:
+      if x[0] == 'dict-store' and x[1] == oid:
+        return True
+      if x[0] == 'loop' and _stores_into(x, oid):
+        return True
+  return False
+
+
+def _iteration_problems(p, evs, oid, Dh, d, name, Ei, is_while):
+  """obligations of ONE iteration of a top-up loop on path p (events evs), pool variable `name` = Ei at the head"""
+  probs = []
+  E1 = p.env.get(name)
+  stores = {}
+  for e in evs:
+    if e[0] == 'dict-store' and e[1] == oid:
+      stores[e[2]] = e[3]
+  dR = sp.Integer(0)
+  for k, v in stores.items():
+    old = cell(Dh, k)
+    # reading the old value instantiates "every rank <= d"
+    p.facts.add('le', sp.expand(old - d))
+    if v is None or not isinstance(v, sp.Basic):
+      probs.append('a rank is overwritten by a non-numeric value')
+      continue
+    dR += v - old
+    if not p.facts.entails(sp.Ge(v, old, evaluate=False)):
+      probs.append(f'a rank can decrease: {_short(old)} -> {_short(v)}')
+    if not p.facts.entails(sp.Le(v, d, evaluate=False)):
+      probs.append(f'a rank can exceed dim: new value {_short(v)}')
+  if not isinstance(E1, sp.Basic):
+    probs.append('pool variable is not numeric after the iteration')
+    return probs
+  dE = sp.expand(E1 - Ei)
+  if not p.facts.entails(sp.Le(sp.expand(dR + dE), 0, evaluate=False)):
+    probs.append(f'ranks grow by {sp.expand(dR)} while the pool is charged {sp.expand(-dE)}: the group can exceed its budget')
+  if not p.facts.entails(sp.Ge(E1, 0, evaluate=False)):
+    probs.append(f'the pool can become negative ({_short(E1)})')
+  if is_while:
+    if not p.facts.entails(sp.Ge(Ei, 1, evaluate=False)):
+      probs.append(f'the loop test does not guarantee that budget is left when the body runs (pool {_short(Ei)} not known >= 1)')
+  elif not p.broke and not p.facts.entails(sp.Ge(E1, 1, evaluate=False)):
+    probs.append(f'the loop continues with an exhausted pool (pool\' = {_short(E1)} not known >= 1): the next layer gets a rank the budget does not cover')
+  return probs
+
+
 def topup(ctx, fi, ip, T, oid, d, B, S):
   node, head, pre = T[1], T[2], T[6]
   lv = _loop_vars(ip, T)
@@ -243,40 +291,42 @@ def topup(ctx, fi, ip, T, oid, d, B, S):
       paths = _rerun_subst(ip, T, {E: Ei}, [sp.Ge(Ei, 1, evaluate=False)], univ)
     n_paths = 0
     for p, evs in paths:
-      n_paths += 1
-      E1 = p.env.get(name)
-      stores = {}
-      for e in evs:
-        if e[0] == 'dict-store' and e[1] == oid:
-          stores[e[2]] = e[3]
-      dR = sp.Integer(0)
-      desc = []
-      for k, v in stores.items():
-        old = cell(Dh, k)
-        # reading the old value instantiates "every rank <= d"
-        p.facts.add('le', sp.expand(old - d))
-        if v is None or not isinstance(v, sp.Basic):
-          probs.append('a rank is overwritten by a non-numeric value')
-          continue
-        dR += v - old
-        if not p.facts.entails(sp.Ge(v, old, evaluate=False)):
-          probs.append(f'a rank can decrease: {_short(old)} -> {_short(v)}')
-        if not p.facts.entails(sp.Le(v, d, evaluate=False)):
-          probs.append(f'a rank can exceed dim: new value {_short(v)}')
-        desc.append(f'{_short(v - old)}')
-      if not isinstance(E1, sp.Basic):
-        probs.append('pool variable is not numeric after the iteration')
+      inner = [x for x in evs if x[0] == 'loop' and _stores_into(x, oid)]
+      if not inner:
+        n_paths += 1
+        probs += _iteration_problems(p, evs, oid, Dh, d, name, Ei, is_while)
         continue
-      dE = sp.expand(E1 - Ei)
-      if not p.facts.entails(sp.Le(sp.expand(dR + dE), 0, evaluate=False)):
-        probs.append(f'ranks grow by {sp.expand(dR)} while the pool is charged {sp.expand(-dE)}: the group can exceed its budget')
-      if not p.facts.entails(sp.Ge(E1, 0, evaluate=False)):
-        probs.append(f'the pool can become negative ({_short(E1)})')
-      if is_while:
-        if not p.facts.entails(sp.Ge(Ei, 1, evaluate=False)):
-          probs.append(f'the loop test does not guarantee that budget is left when the body runs (pool {_short(Ei)} not known >= 1)')
-      elif not p.broke and not p.facts.entails(sp.Ge(E1, 1, evaluate=False)):
-        probs.append(f'the loop continues with an exhausted pool (pool\' = {_short(E1)} not known >= 1): the next layer gets a rank the budget does not cover')
+      # ranks are handed out by a loop nested in this one.  Invariant carried through both levels: every rank <= d and
+      # pool <= budget - sum(ranks) (established at the entry of the outer loop, preserved by every inner iteration
+      # that satisfies the per-iteration obligations, untouched by the outer loop's own statements).
+      if any(e[0] == 'dict-store' and e[1] == oid for e in evs):
+        probs.append('ranks are changed both by a nested loop and by the enclosing loop\'s own statements (not covered by the accounting)')
+      for x in inner:
+        xnode, xhead, xpre = x[1], x[2], x[6]
+        Ex = xhead.env.get(name)
+        Epre = xpre.env.get(name)
+        if not isinstance(Ex, sp.Symbol) or not isinstance(Epre, sp.Basic):
+          probs.append(f'the nested loop does not keep the pool `{name}` as a running variable')
+          continue
+        x_while = isinstance(xnode, ast.While)
+        if not x_while and not xpre.facts.entails(sp.Ge(Epre, 1, evaluate=False)):
+          probs.append(f'the nested loop can start with an exhausted pool (`{name}` = {_short(Epre)} not known >= 1)')
+        Exi = sp.Symbol(Ex.name, integer=True)
+        Dx = _dict_of(xhead, oid).sym()
+        xuniv = [(Dx, K, 'le', sp.expand(cell(Dx, K) - d))]
+        xpaths = _rerun_subst(ip, x, {Ex: Exi}, [] if x_while else [sp.Ge(Exi, 1, evaluate=False)], xuniv)
+        for q, qevs in xpaths:
+          n_paths += 1
+          if any(y[0] == 'loop' and _stores_into(y, oid) for y in qevs):
+            probs.append('ranks are handed out more than two loops deep (not analysed)')
+            continue
+          probs += _iteration_problems(q, qevs, oid, Dx, d, name, Exi, x_while)
+      # after the nested loops the enclosing iteration must not give the pool back
+      E_end = p.env.get(name)
+      last = inner[-1]
+      ends = {qq.env.get(name) for qq, _ in last[3]}
+      if isinstance(E_end, sp.Basic) and E_end.free_symbols & {Ei} and E_end != Ei:
+        probs.append(f'the enclosing loop changes the pool itself ({_short(E_end)}) around the nested loop')
     if n_paths == 0:
       probs.append('no feasible path through the loop body')
     cand = (len(probs), name, probs, n_paths)
